@@ -10,6 +10,9 @@ Streams
   conj       registered gates conjugated by random local unitaries (UnitaryGate)        -> chk_conj
   basis      QPDBasis(maps, coeffs) with arbitrary dyadic coefficient vectors + reassignments
              (mostly valid; malformed: empty maps, 3-tuples, ragged maps, wrong lengths) -> chk_basis
+  kakseq     histories: several locally conjugated registered gates of different families requested back to back
+             on temporary UnitaryGate objects in ONE process; every answer must be the closed form of ITS gate
+             (an answer must not depend on what was requested before)                   -> chk_conj
 """
 from __future__ import annotations
 
@@ -336,6 +339,18 @@ def run_kak(case):
         m2 = mat_of(case["twin"]["left"]) @ mat @ mat_of(case["twin"]["right"])
         b2 = QPDBasis.from_instruction(UnitaryGate(m2, check_input=False))
         case["twin"]["kappa"] = float(b2.kappa)
+    return case
+
+
+def run_kakseq(case):
+    """A history of KAK-path requests: all matrices are built first, then each one is wrapped in a temporary
+    UnitaryGate and requested, one after another (the way a caller iterating over a circuit does it)."""
+    mats = [kak_gate(st) for st in case["steps"]]
+    out = []
+    for m in mats:
+        out.append(_try_obs(lambda m=m: QPDBasis.from_instruction(UnitaryGate(m, check_input=False))))
+    case = dict(case)
+    case["impl"] = out
     return case
 
 
@@ -788,6 +803,33 @@ def generate(rng, tier, outdir):
             w.count("sequence.fresh.same_instance", bool(tgt.get("same_instance")))
             jc(fcase, "sequence.judge")
 
+    # ---------------- histories of KAK-path requests on temporaries ----------------
+    # each step is a registered gate conjugated by random local unitaries; consecutive steps belong to different
+    # families, so an answer that depends on an earlier request (stale state keyed on anything but the gate's
+    # matrix) shows up as a kappa that is not the closed form of the step's own gate
+    for it in range(6 if quick else 60):
+        nsteps = int(rng.integers(4, 9))
+        steps, prev = [], None
+        for _ in range(nsteps):
+            name = str(rng.choice([n for n in conj_names if n != prev]))
+            prev = name
+            theta = conj_theta(name)
+            steps.append(dict(gate="conj", name=name, theta=theta, left=mat_json(rand_local(rng)), right=mat_json(rand_local(rng))))
+        sq = run_kakseq(dict(kind="kakseq", steps=steps))
+        w.count("kakseq.steps", nsteps)
+        for i, (st, o) in enumerate(zip(steps, sq["impl"])):
+            name, theta = st["name"], st["theta"]
+            if name in AFF:
+                tp = theta_prime(name, theta)
+                c, s_ = fr(math.cos(tp)), fr(math.sin(tp))
+            else:
+                c, s_ = Fraction(0), Fraction(0)
+            sc = dict(sq, step=i)
+            kq = qf(o["kappa"]) if obs_finite(o) else Raw("(fl 0 0)")   # kappa 0 matches no model output
+            w.add("kakseq", "chk_conj", (Raw(f'"{name}"'), qq(c), qq(s_), kq), sc, nontrivial=True, key=("kakseq", it, i))
+            w.count("kakseq.name", name)
+            jc(sc, "kakseq.judge")
+
     return w.finish(
         rule="coefficients, kappa, probabilities, overhead of the implementation compared inside Coq (Q arithmetic, 1e-12 / 1e-11 on "
              "trigonometric inputs, exact on dyadic coefficient vectors, 2^-53 on quotients) with the model evaluated at the same point; "
@@ -905,7 +947,7 @@ def judge(case):
         if want is not None and abs(o["kappa"] - want) > 1e-9:
             bad.append(f"kappa of {g}{'/' + case['name'] if g == 'conj' else ''}(theta={case.get('theta')!r}"
                        f"{', beta=' + repr(case.get('beta')) if case.get('beta') is not None else ''}) through the KAK path = "
-                       f"{o['kappa']!r}, documented closed form {want!r} (Weyl coordinates returned: {case.get('oracle', {}).get('abc')})")
+                       f"{o['kappa']!r}, documented closed form {want!r} (Weyl coordinates returned: {(case.get('oracle') or {}).get('abc')})")
         orc = case.get("oracle")
         if orc is not None and orc.get("recon_err", 1) <= 1e-9:
             ki = kappa_from_weyl(*orc["abc"])
@@ -917,6 +959,21 @@ def judge(case):
         if o["kappa"] < 1 - 1e-12:
             bad.append(f"kappa {o['kappa']!r} < 1")
         bad += invariants(o)
+    elif kind == "kakseq":
+        i = case["step"]
+        st, o = case["steps"][i], case["impl"][i]
+        hist = ", ".join(f"{t['name']}({t['theta']!r})" if t["theta"] is not None else t["name"] for t in case["steps"][:i])
+        where = f"step {i} of a history of KAK-path requests (earlier requests: local conjugates of {hist or 'none'}): "
+        if "crashed" in o or not obs_finite(o):
+            bad += invariants(o, where=where)
+        else:
+            want = closed_form(st["name"], st.get("theta") or 0.0)
+            if abs(o["kappa"] - want) > 1e-9:
+                bad.append(f"{where}kappa of a local conjugate of {st['name']}(theta={st.get('theta')!r}) through the KAK path = "
+                           f"{o['kappa']!r}, documented closed form {want!r}")
+            if o["kappa"] < 1 - 1e-12:
+                bad.append(f"{where}kappa {o['kappa']!r} < 1")
+            bad += invariants(o, where=where)
     elif kind == "basis":
         for i, s in enumerate(case["impl"]):
             if "crashed" in s:
@@ -943,6 +1000,8 @@ def rerun(case):
         k = guarded(run_kak, case)
         k["kind"] = kind
         return k
+    if kind == "kakseq":
+        return run_kakseq(case)
     if kind == "basis":
         return run_basis(case)
     if kind == "sameobj":
